@@ -114,11 +114,12 @@ ENTRY = {
     'symbols': ['symbols'], 'lists': ['capacitors', 'inductors', 'voltage_sources', 'current_sources', 'transformers', 'twoports'],
     'thevenin': ['thevenin'],
     'wired_to': ['cb:wired_to'], 'is_wired_to': ['cb:is_wired_to'], 'across': ['across_nodes'], 'in_series': ['in_series'],
-    'in_parallel': ['in_parallel'], 'loops': ['cg'], 'nodeinfo': ['nodes'],
+    'in_parallel': ['in_parallel'], 'loops': ['cg'], 'nodeinfo': ['nodes'], 'unconnected': ['unconnected_nodes'],
 }
 DERIVE_ENTRY = {
     'copy': ['copy'], 'subs': ['subs'], 'kill': ['kill'], 'kill_except': ['kill_except'], 'simplify': ['simplify'], 'select': ['select'],
     'replace': ['replace'], 'laplace': ['laplace'], 'r_model': ['r_model'], 'prune': ['prune'], 'dc': ['dc'], 'transient': ['transient'],
+    'remove_dangling': ['remove_dangling'], 'remove_disconnected': ['remove_disconnected'],
     'ac': ['ac'], 'noise_model': ['noise_model'], 'expand': ['expand'], 'time': ['time'], 'renumber': ['renumber'],
 }
 MUT_ENTRY = {
@@ -196,6 +197,8 @@ def query(c, q):
         g = c.cg
         loops = g.loops()
         return repr((len(loops), sorted({str(n) for l in loops for n in l}), sorted(str(n) for n in g.nodes), g.is_connected))
+    if k == 'unconnected':
+        return repr(sorted(c.unconnected_nodes()))
     if k == 'nodeinfo':
         nd = c[q['a']]
         return repr((nd.count, sorted(x.name for x in nd.connected), nd.is_dangling if hasattr(type(nd), 'is_dangling') else None))
@@ -241,7 +244,7 @@ def derive(c, d):
         return c.replace(d['old'], d['new'])
     if h == 'prune':
         return c.prune(d['name'])
-    if h in ('laplace', 'r_model', 'dc', 'transient', 'ac', 'noise_model', 'expand', 'time', 'renumber'):
+    if h in ('remove_dangling', 'remove_disconnected', 'laplace', 'r_model', 'dc', 'transient', 'ac', 'noise_model', 'expand', 'time', 'renumber'):
         return getattr(c, h)()
     raise ValueError('unknown rewrite ' + h)
 
